@@ -116,6 +116,19 @@ let () =
            | GColl _, _ -> failc "SPEC" "collection_boundary_not_a_collection" (Printf.sprintf "boundary=%s input=%s" f.(4) gd)
            | _ -> ());
           if not (is_empty gbb) then failc "SPEC" "boundary_of_boundary_nonempty" (Printf.sprintf "bb=%s input=%s" f.(6) gd);
+          (* the mod-2 rule on the implementation's output, for lineal input of any size: membership in
+             Boundary(g) agrees with "end point of an odd number of non-closed members" at every end point
+             and every reported point (theorem mod2_exact_everywhere: hence at every point of Q^2); for
+             collections every odd end point of every lineal leaf is reported *)
+          (match g with
+           | GLine _ | GMLine _ ->
+             count "spec_mod2_exact_evaluated";
+             if not (puntalb gb) then failc "SPEC" "lineal_boundary_not_puntal" (Printf.sprintf "boundary=%s input=%s" f.(4) gd)
+             else if not (timed "spec_mod2" (fun () -> mod2_exact g gb)) then
+               failc "SPEC" "boundary_mod2_rule" (Printf.sprintf "boundary=%s input=%s" f.(4) gd)
+           | _ -> ());
+          if not (timed "spec_mod2" (fun () -> mod2_complete g gb)) then
+            failc "SPEC" "boundary_misses_odd_end_point_of_lineal_leaf" (Printf.sprintf "boundary=%s input=%s" f.(4) gd);
           if (not lattice) && members_overlap g then count "float_multipolygon_members_overlap_exactly_excluded"
           else begin
             if not (timed "spec_probes" (fun () -> probes_on_boundary g gb)) then failc "SPEC" "boundary_point_not_on_boundary" (Printf.sprintf "boundary=%s input=%s" f.(4) gd);
@@ -213,7 +226,7 @@ let () =
                 count "spec_pos_evaluated"
               end) table
         end;
-        if !samples < 5 && not (is_empty g) && (cls = "polygon" || cls = "multiline" || cls = "collection") then begin
+        if !samples < 5 && not (is_empty g) && (cls = "polygon" || cls = "multiline" || cls = "collection" || cls = "multiline_large" || cls = "collection_mixed_nest") then begin
           incr samples;
           let cen0 = (match String.split_on_char '|' f.(8) with s :: _ -> (parse_node s) | [] -> failwith "no node") in
           Printf.printf "SAMPLE\t%s\t%s\tinput=%s\tboundary(model=impl)=%s\tpos impl=%s\n" id cls (trunc gd) (trunc f.(4)) (point_str cen0.gp)
